@@ -61,11 +61,23 @@ def handleClip (j : Json) : Except String Verdict := do
   let st ← geoPt (← getObj o "start")
   let en ← geoPt (← getObj o "end")
   let mst := clipStart src p0 p1
-  let men := clipEnd dst mst p1
+  -- the end is cut on the segment that starts at the implementation's start point: a rounding tie at the start
+  -- (float64 vs exact) would otherwise be amplified by a shallow slope
+  let men := clipEnd dst st p1
   let near (a b : Pt) : Bool := decide ((a.x - b.x) * (a.x - b.x) ≤ 1 ∧ (a.y - b.y) * (a.y - b.y) ≤ 1)
   if !(near mst st && near men en) then
     return .mismatch "trace-rect" s!"src {boxStr src} dst {boxStr dst}: model {ptStr mst}->{ptStr men} impl {ptStr st}->{ptStr en}"
   return .ok
+
+/-- feature class of an endpoint's shape, part of the signature so that a known defect of one class does not hide
+    a violation in another -/
+def featureClass (e : Edge) (o : Obj) : String :=
+  if o.is3d || o.multiple then "3d-multiple"
+  else if o.olabel.isSome || o.oicon.isSome then "outside-label-icon"
+  else if e.src == e.dst && o.container then "container-selfloop"
+  else if !(rectangularShapes.contains o.shape) then "shaped"
+  else if o.container then "container"
+  else "plain"
 
 def checkEdges (engine path : String) (os : List Obj) (es : List Edge) : Option Verdict := Id.run do
   for e in es do
@@ -75,10 +87,10 @@ def checkEdges (engine path : String) (os : List Obj) (es : List Edge) : Option 
       match findObj os e.src, findObj os e.dst with
       | some s, some d =>
         if !endsOnExtent tol s first then
-          return some (.specfalse (sigOf engine "start-off-source")
+          return some (.specfalse s!"start-off-source:{featureClass e s}:{engine}"
             s!"board {path}: edge {e.id} starts at {ptStr first}, source {s.id} shape={s.shape} {boxStr s.box} label={s.labelPos} 3d={s.is3d} multiple={s.multiple}")
         if !endsOnExtent tol d last then
-          return some (.specfalse (sigOf engine "end-off-destination")
+          return some (.specfalse s!"end-off-destination:{featureClass e d}:{engine}"
             s!"board {path}: edge {e.id} ends at {ptStr last}, destination {d.id} shape={d.shape} {boxStr d.box} label={d.labelPos} 3d={d.is3d} multiple={d.multiple}")
       | _, _ => return some (.bad s!"board {path}: endpoint of {e.id} not in the dump")
     | _, _ => continue   -- fewer than two points: C17's subject
@@ -107,4 +119,4 @@ def handleC20 (j : Json) : Except String Verdict := do
   | "geo" => handleGeo j
   | k => throw s!"unknown kind {k}"
 
-def main : IO Unit := runDriver handleC20
+def main : IO Unit := D2V.Drv.Lay.runSanitized handleC20
